@@ -257,6 +257,10 @@ func (s *scen) run() core.Result {
 		if cap(buf) != len(src)+k {
 			r.Count("dointo_buffer_grown", 1)
 		}
+		if e2 == nil && poolpoison.Aliased(buf) {
+			r.Class = "violation"
+			r.Add(fmt.Sprintf("j2t.DoInto|%s|result-aliases-pooled-buffer", s.op), "trigger %s, options %s, extra capacity %d: the %d bytes DoInto left in the caller's buffer change when the pooled buffers are overwritten\ndoc %s", s.trigger, s.optName, k, len(buf), clip(s.doc, 300))
+		}
 		if oc, det := s.judge(buf, e2); oc != "" {
 			r.Class = "violation"
 			// outcome class tells whether Do agreed: a capacity-only failure is its own signature
